@@ -272,6 +272,8 @@ def new_defaulted_params(model: Model, fn: FunctionInfo) -> dict:
                         # a constructor is called through its class (or `cls` inside the class), not by name;
                         # `super().__init__(..)` of unrelated classes is not a call of it
                         hit = cname == fn.cls.name or (cname == "cls" and g.cls is fn.cls)
+                    if hit and g is not fn and _dead_under_callers_defaults(model, g, n):
+                        continue  # a call the caller makes only when ITS new keyword is switched away from the default
                     if hit:
                         n_calls += 1
                         # positional arguments that land on a candidate parameter
@@ -343,6 +345,51 @@ class _EmptyVarargs:
 
 
 _EMPTY_VARARGS = _EmptyVarargs()
+
+
+def _dead_under_callers_defaults(model: Model, g: FunctionInfo, call: ast.Call) -> bool:
+    """``call`` sits in a branch of ``g`` that is not taken when g's own NEW optional keywords have their defaults
+    (``if not case_sensitive: ... f(x, case_sensitive=False)`` with ``case_sensitive`` a new keyword of g, default
+    True): for the documented calls of g that call of f does not happen."""
+    sig = KNOWN_SIGNATURES.get(g.qualname)
+    if sig is None:
+        return False
+    mine = {p.name: p.default.value for p in g.params if p.name not in sig and isinstance(p.default, ast.Constant)}
+    if not mine:
+        return False
+
+    def truth(test):
+        if isinstance(test, ast.Name) and test.id in mine:
+            return bool(mine[test.id])
+        if isinstance(test, ast.UnaryOp) and isinstance(test.op, ast.Not):
+            t_ = truth(test.operand)
+            return None if t_ is None else not t_
+        if isinstance(test, ast.Compare) and len(test.ops) == 1 and isinstance(test.left, ast.Name) and test.left.id in mine and isinstance(test.comparators[0], ast.Constant):
+            v_, c_ = mine[test.left.id], test.comparators[0].value
+            if isinstance(test.ops[0], (ast.Is, ast.Eq)):
+                return v_ is c_ if isinstance(test.ops[0], ast.Is) else v_ == c_
+            if isinstance(test.ops[0], (ast.IsNot, ast.NotEq)):
+                return v_ is not c_ if isinstance(test.ops[0], ast.IsNot) else v_ != c_
+        return None
+
+    def contains(nodes):
+        return any(x is call for n_ in nodes for x in ast.walk(n_))
+
+    # the parameter must not be rebound in g
+    if any(isinstance(x, ast.Name) and x.id in mine and isinstance(x.ctx, ast.Store) for x in ast.walk(g.node)):
+        return False
+    for n_ in ast.walk(g.node):
+        if isinstance(n_, ast.If):
+            t_ = truth(n_.test)
+            if t_ is False and contains(n_.body):
+                return True
+            if t_ is True and contains(n_.orelse):
+                return True
+        if isinstance(n_, ast.IfExp):
+            t_ = truth(n_.test)
+            if (t_ is False and any(x is call for x in ast.walk(n_.body))) or (t_ is True and any(x is call for x in ast.walk(n_.orelse))):
+                return True
+    return False
 
 
 class Summariser:
